@@ -19,10 +19,11 @@ class RMI:
         if len(fn.params) < 5:
             raise AnalysisError("replace_matching_item signature changed: %s" % fn.params)
         self.regexes, self.line, self.lookup, self.salt, self.reserved = [("param", x) for x in fn.params[:5]]
-        mod = fn.module.name
-        self.SPLIT = ("call", ("global", mod, "_split_line"), (self.line,), ())
+        # the helpers are referred to through the module that defines them (they may live in another module of the package and be imported)
+        f_sp, f_ex = p.find_function("_split_line"), p.find_function("_extract_enclosing_text")
+        self.SPLIT = ("call", ("global", f_sp.module.name, f_sp.name), (self.line,), ())
         joined = ("call", ("attr", ("const", " "), "join"), (("sub", self.SPLIT, ("const", 1)),), ())
-        self.EXT = ("call", ("global", mod, "_extract_enclosing_text"), (joined, ("sub", self.SPLIT, ("const", 0)), ("sub", self.SPLIT, ("const", 2))), ())
+        self.EXT = ("call", ("global", f_ex.module.name, f_ex.name), (joined, ("sub", self.SPLIT, ("const", 0)), ("sub", self.SPLIT, ("const", 2))), ())
         self.fp = ctx.A.paths(fn)
 
 
@@ -123,6 +124,8 @@ def check_rmi(ctx, rep, cl):
                         val = None
                 elif repl is not None and repl[0] == "const":
                     val = repl[1]
+                elif repl is not None and repl[0] == "lambda" and len(repl[2]) == 1 and repl[3][0] == "const" and isinstance(repl[3][1], str):
+                    val = repl[3][1].replace("\\", "")  # a function returning a constant: inserted verbatim, nothing matched is copied
                 okc = isinstance(val, str) and "\\" not in val
                 rep.ob(cl + ".scrub-constant", fn.name, okc, "index-less patterns are replaced by %r; must be a constant without backslash / group reference (nothing matched is copied)" % (val if val is not None else show(repl),), wb, key=cl + ".scrub-constant|replace_matching_item")
                 rep.ob(cl + ".scrub-stops", fn.name, bp.kind == "break", "after scrubbing the search stops", wb, nontrivial=False)
@@ -139,7 +142,7 @@ def check_rmi(ctx, rep, cl):
                 callable_repl = True
                 body = repl[3]
             pfx = ("ifexp", ("compare", ("in",), (("const", "prefix"), ("call", ("attr", m, "groupdict"), (), ()))), ("call", ("attr", m, "group"), (("const", "prefix"),), ()), ("const", ""))
-            av_call = ("call", ("global", fn.module.name, f_av.name), (("call", ("attr", m, "group"), (idx_t,), ()), r.lookup, r.reserved, r.salt), ())
+            av_call = ("call", ("global", f_av.module.name, f_av.name), (("call", ("attr", m, "group"), (idx_t,), ()), r.lookup, r.reserved, r.salt), ())
             want = ("binop", "+", pfx, av_call)
             has_pfx = bp.truth(pfx[1])
             forked = (has_pfx is True and body == ("binop", "+", pfx[2], av_call)) or (has_pfx is False and body == ("binop", "+", pfx[3], av_call))
